@@ -18,14 +18,17 @@ def symText (s : Sym) : String :=
   | .var => "var" ++ toString s.idx
   | .const => "<" ++ s.ty.toStr ++ ">"
 
+/-- a letter is a (name, type) pair: one name may be used at several types -/
+def symTextTy (s : Sym) : String := symText s ++ ":" ++ s.ty.toStr
+
 partial def tokSexp : Tok Sym → Sexp
   | .any => .list [.atom "any"]
-  | .allow S => .list (.atom "allow" :: S.map (fun s => .str (symText s)))
-  | .forbidSub S => .list (.atom "forbid" :: S.map (fun s => .str (symText s)))
-  | .forceSub S => .list (.atom "force" :: S.map (fun s => .str (symText s)))
-  | .atMost S n => .list [.atom "atmost", .list (S.map (fun s => .str (symText s))), ofNat n]
-  | .atLeast S n => .list [.atom "atleast", .list (S.map (fun s => .str (symText s))), ofNat n]
-  | .func H args => .list (.atom "func" :: .list (H.map (fun s => .str (symText s))) :: args.map tokSexp)
+  | .allow S => .list (.atom "allow" :: S.map (fun s => .str (symTextTy s)))
+  | .forbidSub S => .list (.atom "forbid" :: S.map (fun s => .str (symTextTy s)))
+  | .forceSub S => .list (.atom "force" :: S.map (fun s => .str (symTextTy s)))
+  | .atMost S n => .list [.atom "atmost", .list (S.map (fun s => .str (symTextTy s))), ofNat n]
+  | .atLeast S n => .list [.atom "atleast", .list (S.map (fun s => .str (symTextTy s))), ofNat n]
+  | .func H args => .list (.atom "func" :: .list (H.map (fun s => .str (symTextTy s))) :: args.map tokSexp)
 
 /-- tokens sent by name: the names are resolved against the symbol lists -/
 partial def decTok (syms : List Sym) : Sexp → Option (Tok Sym)
@@ -101,7 +104,8 @@ def answerTokens (G : CFG) (toks : List (Tok Sym)) (sk : Option (Tok Sym)) (ts :
     match skS, addDftaConstraints base toks sk with
     | some ss, some R =>
       .list ([.atom "ok"] ++ hdr ++ [baseS, hyp, .list steps, (ss.getD (.list [.atom "nosketch"])),
-        statsU R, bits (ts.map R.accepts), bits (ts.map (readable R)), specBits, baseBits, inGBits, nonce])
+        statsU R, bits (ts.map R.accepts), bits (ts.map (readable R)), specBits, baseBits,
+        bits (ts.map (sharpenSpec D.accepts toks sk)), nonce])
     | _, _ => .list ([.atom "fail", .str "sketch"] ++ hdr ++ [baseS, hyp, specBits, baseBits, inGBits, nonce])
 
 def optTokSexp : Option (Tok Sym) → Sexp
@@ -113,7 +117,8 @@ def handle : Sexp → Option Sexp
       let G ← decCFG g
       let fl ← allSome Sexp.string? flags
       let Sy : Syms := { prims := ← allSome decSym prims, vars := ← allSome decSym vars,
-                         fixF3 := fl.contains "C05-F3", fixF4 := fl.contains "C05-F4" }
+                         fixF3 := fl.contains "C05-F3", fixF4 := fl.contains "C05-F4",
+                         fixF2 := fl.contains "C05-F2", fixF5 := fl.contains "C05-F5" }
       let cs ← allSome Sexp.string? cs
       let ts ← allSome decProg progs
       let parsed := cs.map (fun c => parse Sy c.toList)
@@ -128,6 +133,40 @@ def handle : Sexp → Option Sexp
       | some toks, none => pure (answerTokens G toks none ts hdr nonce)
       | some toks, some (some s) => pure (answerTokens G toks (some s) ts hdr nonce)
       | _, _ => pure (.list ([.atom "fail", .str "parse"] ++ hdr ++ [nonce]))
+  | .list [.atom "c05.lang", .list flags, g, .list prims, .list vars, .list cs, sk, .list progs, nonce] => do
+      -- the language of the model's result BY THEOREM C05_sharpen (no automaton is built beyond the base one):
+      -- parsed tokens, base table, sharpenSpec (cfg2dfta G).accepts tokens sketch
+      let G ← decCFG g
+      let fl ← allSome Sexp.string? flags
+      let Sy : Syms := { prims := ← allSome decSym prims, vars := ← allSome decSym vars,
+                         fixF3 := fl.contains "C05-F3", fixF4 := fl.contains "C05-F4",
+                         fixF2 := fl.contains "C05-F2", fixF5 := fl.contains "C05-F5" }
+      let cs ← allSome Sexp.string? cs
+      let ts ← allSome decProg progs
+      let parsed := cs.map (fun c => parse Sy c.toList)
+      let skP : Option (Option (Tok Sym)) ← match sk with
+        | .list [.atom "none"] => some none
+        | .list [.atom "some", s] => do pure (some (parse Sy (← s.string?).toList))
+        | _ => none
+      let hdr := [.list (parsed.map optTokSexp), match skP with
+        | none => .atom "none"
+        | some p => optTokSexp p]
+      let D := cfg2dfta G
+      let toksO : Option (List (Tok Sym) × Option (Tok Sym)) := match allSome id parsed, skP with
+        | some toks, none => some (toks, none)
+        | some toks, some (some s) => some (toks, some s)
+        | _, _ => none
+      match toksO with
+      | none => pure (.list ([.atom "fail", .str "parse"] ++ hdr ++ [nonce]))
+      | some (toks, skT) =>
+        -- does the model raise?  a processed local rule must be a function pattern; a function pattern needs a final state
+        let localOK := toks.all (fun c => skipped c || (match c with | .func _ _ => !D.finals.isEmpty | _ => false))
+        let sketchOK := match skT with
+          | some (.func _ _) => !D.finals.isEmpty
+          | _ => true
+        if localOK && sketchOK then
+          pure (.list ([.atom "ok"] ++ hdr ++ [.list (D.rules.map ruleSexp), bits (ts.map (sharpenSpec D.accepts toks skT)), nonce]))
+        else pure (.list ([.atom "fail", .str "raises"] ++ hdr ++ [nonce]))
   | .list [.atom "c05.tokens", g, .list syms, .list toks, sk, .list progs, nonce] => do
       -- specification only (no automaton): sharpenSpec on the given tokens, the hypotheses, L(G)
       let G ← decCFG g
